@@ -300,6 +300,30 @@ fn run_generic<M: Matcher>(p: &Prep, m: &M, answers: &[String], ctx: &mut Ctx) {
         let s = if mmap { &mut ss.mmap } else { &mut ss.plain };
         let out = run_with(s, m, input, Script::All, &st).0;
         ctx.rep.branch(&format!("strategy:{}", name));
+        // the reader strategy vs the Lean model of search_reader (Model/ReadByLine.lean: BOM peek, roll buffer,
+        // ReadByLine over Core), the subject of theorems C03_reader_slow / C03_reader_linesafe (Props/C03Reader.lean).
+        // Literal matchers only (a table of a real matcher's answers is indexed by positions of the whole input).
+        // (inputs up to 600 bytes: the list-based model is quadratic in the number of 1-byte reads)
+        if let (Strategy::Reader(nchunk), MatcherSpec::Lit { .. }, true) = (&st, &case.m, input.len() <= 600) {
+            let rm = ctx.drv.ask(&format!(
+                "c03.rbl {} {} {} (script {}) - - (sink all)",
+                cfg.effective().to_sx(),
+                msx,
+                hex(input),
+                vec![nchunk.to_string(); input.len() + 8].join(" ")
+            ));
+            ctx.rep.eval();
+            ctx.rep.branch("reader-model:compared");
+            if rm != out {
+                ctx.rep.violation(Violation {
+                    kind: "impl_vs_model".into(),
+                    class: "".into(),
+                    tie: format!("{}: Sink event stream of search_reader vs Lean model searchReader (theorems C03_reader_*)", name),
+                    case: line.to_string(),
+                    detail: format!("{} strategy {} impl {} model {}", ctxs, name, out, rm),
+                });
+            }
+        }
         if out == spec {
             continue;
         }
